@@ -21,6 +21,31 @@ CLAIMS = {
         note="hand-written model tied by correspondence; no-mutation and operand-kind clauses are tested on the "
              "implementation, not proved",
         technique="Coq proof (induction over DSL trees) + model/implementation correspondence"),
+    "C01": dict(
+        text="Coq theorems: for every interleaving of scalar constraints and LMIs of any sizes the cvxpy emission / dual "
+             "recovery / assignment maps the k-th tracked item to its own main dual (entry equalities skipped, nothing "
+             "dropped or shifted); under the solver assumption (constant Lagrangian = KKT stationarity, Spec/KKT.v) and "
+             "LMIs symmetric as written the exposed multipliers satisfy the certificate identity for all symmetric G and all "
+             "F and the proof reconstruction returns exactly its constant tau; identity + signs + PSD multipliers imply "
+             "objective <= tau on the feasible set; for an LMI not symmetric as written the statement is refuted with a "
+             "witness (known finding F-C01a, replayed on the real code). Tie: real emission, recovery, assignment and "
+             "check_feasibility run on scripted position-tagged duals and compared exactly with the model; real SCS solves "
+             "measure the solver assumption.",
+        ref="DESIGN.md 5.1",
+        note="solver returns stationarity-satisfying duals (assumed; residual measured each run); PSD multipliers as rank-one "
+             "sums, primal matrices as quadratic-form PSD; MOSEK side is C11; tolerance propagation not mechanised",
+        technique="Coq proof (induction over sent lists; algebra over reals) + scripted-dual correspondence"),
+    "C14": dict(
+        text="Coq theorems over the post-solve event list REGENERATED from PEP._solve_with_wrapper: duals are assigned exactly "
+             "once, from the first solve, before any heuristic event, and dual mode returns the reconstruction from those "
+             "duals for every heuristic string / iteration count / solver answer; the heuristic problem's feasible set is the "
+             "original one intersected with objective >= wc - tol, so any returned instance satisfies the declared model; "
+             "trace does not increase (given solver optimality); option strings dispatch as documented. Tie: translator + "
+             "scripted-solver correspondence of wrapper calls and cvxpy problems before/after the heuristic; real SCS pairs.",
+        ref="DESIGN.md 5.14",
+        note="solver optimality for the trace clause is an explicit hypothesis; eigenvalue thresholding and matrix inverse "
+             "are numpy (they only influence W and printed diagnostics); MOSEK side inherits F-C11b",
+        technique="Coq proof over a plan regenerated from the source + scripted-solver correspondence"),
     "C05": dict(
         text="Coq theorems: for every expression dictionary with unique keys, every symmetric G and every F the dense "
              "(cvxpy) data and the sparse lower-triangular triples (MOSEK storage reading) denote exactly the expression's "
